@@ -14,6 +14,7 @@ coq/SerLegacyDefs.v (the model), coq/SerLegacyModel*.v (the theorems) and the ex
   * variant flags, each recognising exactly one of two shapes at every site it covers (fail closed):
       legacy_cdata_cr_referenced          (fixes/C04/10-K-new-7)
       legacy_detects_lone_low_surrogate   (fixes/C04/11-K-new-4)
+      legacy_checks_comment_pi_names      (fixes/C04/12-K-new-8)
 Anything not recognised raises AnchorError.
 """
 import re
@@ -156,9 +157,14 @@ def gen_serlegacy():
     for fn in ("accumContentAsChar", "accumContentAsCharDirect"):
         b = function_body(cpp, r"FormatterToXML::%s\s*\(\s*XalanDOMChar\s+ch\s*\)\s*\{" % fn, fn)
         need(r"if\s*\(\s*ch\s*>\s*m_maxCharacter\s*\)\s*\{\s*writeNumberedEntityReference\s*\(\s*ch\s*\)\s*;\s*\}\s*else\s*\{\s*(m_charBuf\s*\[\s*m_pos\+\+\s*\]\s*=\s*ch|m_stream->write\s*\(\s*ch\s*\))\s*;\s*\}", b, fn + " body")
+    THROW_NAME = r"(?:if\s*\(\s*getOutputFormat\s*\(\s*\)\s*==\s*OUTPUT_METHOD_XML\s*\)\s*\{\s*throwUnrepresentableCharacterException\s*\(\s*ch\s*\)\s*;\s*\}\s*)"
     b = function_body(cpp, r"FormatterToXML::accumNameAsChar\s*\(\s*XalanDOMChar\s+ch\s*\)\s*\{", "accumNameAsChar")
-    mm = need(r"if\s*\(\s*ch\s*>\s*m_maxCharacter\s*\)\s*\{\s*m_charBuf\s*\[\s*m_pos\+\+\s*\]\s*=\s*(XalanUnicode::char\w+)\s*;\s*\}\s*else\s*\{\s*m_charBuf\s*\[\s*m_pos\+\+\s*\]\s*=\s*ch\s*;\s*\}", b, "accumNameAsChar body")
-    name_subst = val(mm.group(1), U)
+    mm = need(r"if\s*\(\s*ch\s*>\s*m_maxCharacter\s*\)\s*\{\s*(" + THROW_NAME + r"?)m_charBuf\s*\[\s*m_pos\+\+\s*\]\s*=\s*(XalanUnicode::char\w+)\s*;\s*\}\s*else\s*\{\s*m_charBuf\s*\[\s*m_pos\+\+\s*\]\s*=\s*ch\s*;\s*\}", b, "accumNameAsChar body")
+    name_subst = val(mm.group(2), U)
+    chk_name = 1 if mm.group(1) else 0
+    b = function_body(cpp, r"FormatterToXML::accumNameAsCharDirect\s*\(\s*XalanDOMChar\s+ch\s*\)\s*\{", "accumNameAsCharDirect")
+    mm = need(r"if\s*\(\s*ch\s*>\s*m_maxCharacter\s*\)\s*\{\s*(" + THROW_NAME + r"?)m_stream->write\s*\(\s*XalanDOMChar\s*\(\s*XalanUnicode::charQuestionMark\s*\)\s*\)\s*;\s*\}\s*else\s*\{\s*m_stream->write\s*\(\s*ch\s*\)\s*;\s*\}", b, "accumNameAsCharDirect body")
+    chk_name_direct = 1 if mm.group(1) else 0
     b = function_body(cpp, r"FormatterToXML::accumCharUTF\s*\(\s*XalanDOMChar\s+ch\s*\)\s*\{", "accumCharUTF")
     need(r"m_charBuf\s*\[\s*m_pos\+\+\s*\]\s*=\s*ch\s*;", b, "accumCharUTF body")
     need(r"m_encodingIsUTF\s*=\s*canOmitXMLDeclaration\s*\|\|\s*XalanTranscodingServices::encodingIsUTF32\s*\(\s*m_encoding\s*\)", cpp, "m_encodingIsUTF")
@@ -261,8 +267,18 @@ def gen_serlegacy():
     cd_sites = [cd_a, cd_c, cd_first, cd_last]
     has_fn = re.search(r"FormatterToXML::isReferenceInCDATA\s*\(", cpp) is not None
     ref_consts = (0, 0, 0)
+    ref_only_fn = 0
     if has_fn:
         fb = function_body(cpp, r"FormatterToXML::isReferenceInCDATA\s*\(\s*XalanDOMChar\s+ch\s*\)\s*const\s*\{", "isReferenceInCDATA")
+        REFONLY = (r"\s*return\s+ch\s*==\s*XalanUnicode::charCR\s*\|\|\s*\(\s*ch\s*<\s*(\w+)\s*&&\s*ch\s*!=\s*XalanUnicode::charHTab\s*&&\s*ch\s*!=\s*XalanUnicode::charLF\s*\)\s*\|\|"
+                   r"\s*\(\s*m_isXML1_1\s*==\s*true\s*&&\s*\(\s*ch\s*==\s*XalanUnicode::charLSEP\s*\|\|\s*\(\s*(\w+)\s*<=\s*ch\s*&&\s*ch\s*<=\s*(\w+)\s*\)\s*\)\s*\)\s*;")
+        if re.search(r"return\s+isReferenceOnly\s*\(\s*ch\s*\)\s*;", fb):
+            need(r"^\{\s*if\s*\(\s*ch\s*>\s*m_maxCharacter\s*\)\s*\{\s*return\s+true\s*;\s*\}\s*else\s+if\s*\(\s*getOutputFormat\s*\(\s*\)\s*!=\s*OUTPUT_METHOD_XML\s*\)\s*\{\s*return\s+false\s*;\s*\}\s*else\s*\{\s*return\s+isReferenceOnly\s*\(\s*ch\s*\)\s*;\s*\}\s*\}$", fb, "isReferenceInCDATA body (calls isReferenceOnly)")
+            fb = "{ if(ch > m_maxCharacter) { return true; } else if(getOutputFormat() != OUTPUT_METHOD_XML) { return false; } else {" + \
+                 need(r"^\{(" + REFONLY + r")\s*\}$", function_body(cpp, r"FormatterToXML::isReferenceOnly\s*\(\s*XalanDOMChar\s+ch\s*\)\s*const\s*\{", "isReferenceOnly"), "isReferenceOnly body").group(1) + " } }"
+            ref_only_fn = 1
+        else:
+            ref_only_fn = 0
         mm = need(r"^\{\s*if\s*\(\s*ch\s*>\s*m_maxCharacter\s*\)\s*\{\s*return\s+true\s*;\s*\}\s*else\s+if\s*\(\s*getOutputFormat\s*\(\s*\)\s*!=\s*OUTPUT_METHOD_XML\s*\)\s*\{\s*return\s+false\s*;\s*\}\s*else\s*\{"
                   r"\s*return\s+ch\s*==\s*XalanUnicode::charCR\s*\|\|\s*\(\s*ch\s*<\s*(\w+)\s*&&\s*ch\s*!=\s*XalanUnicode::charHTab\s*&&\s*ch\s*!=\s*XalanUnicode::charLF\s*\)\s*\|\|"
                   r"\s*\(\s*m_isXML1_1\s*==\s*true\s*&&\s*\(\s*ch\s*==\s*XalanUnicode::charLSEP\s*\|\|\s*\(\s*(\w+)\s*<=\s*ch\s*&&\s*ch\s*<=\s*(\w+)\s*\)\s*\)\s*\)\s*;\s*\}\s*\}$", fb, "isReferenceInCDATA body")
@@ -282,13 +298,33 @@ def gen_serlegacy():
     mm = need(r"((?:accumName\s*\(\s*XalanUnicode::char\w+\s*\)\s*;\s*)+)accumCommentData\s*\(\s*data\s*\)\s*;\s*((?:accumName\s*\(\s*XalanUnicode::char\w+\s*\)\s*;\s*)+)m_startNewLine\s*=\s*true\s*;", cmt, "comment body")
     c_open, c_close = name_seq(mm.group(1), "comment"), name_seq(mm.group(2), "comment")
     b = function_body(cpp, r"FormatterToXML::accumCommentData\s*\([^)]*\)\s*\{", "accumCommentData")
-    need(r"^\{\s*accumContent\s*\(\s*data\s*\)\s*;\s*\}$", b, "accumCommentData body")
+    chk_comment = one_of(b, [r"^\{\s*accumContent\s*\(\s*data\s*\)\s*;\s*\}$",
+                             r"^\{\s*accumMarkupData\s*\(\s*data\s*,\s*length\s*\(\s*data\s*\)\s*\)\s*;\s*\}$"], "accumCommentData body")
     pib = function_body(cpp, r"FormatterToXML::processingInstruction\s*\([^)]*\)\s*\{", "processingInstruction")
     mm = need(r"((?:accumName\s*\(\s*XalanUnicode::char\w+\s*\)\s*;\s*)+)accumName\s*\(\s*target\s*\)\s*;\s*const\s+XalanDOMString::size_type\s+len\s*=\s*length\s*\(\s*data\s*\)\s*;\s*if\s*\(\s*len\s*>\s*0\s*&&\s*!\s*isXMLWhitespace\s*\(\s*data\s*\[\s*0\s*\]\s*\)\s*\)"
               r"\s*\{\s*accumName\s*\(\s*(XalanUnicode::char\w+)\s*\)\s*;\s*\}\s*accumNormalizedPIData\s*\(\s*data\s*,\s*len\s*\)\s*;\s*((?:accumName\s*\(\s*XalanUnicode::char\w+\s*\)\s*;\s*)+)m_startNewLine\s*=\s*true\s*;", pib, "processingInstruction body")
     p_open, p_sep, p_close = name_seq(mm.group(1), "pi"), val(mm.group(2), U), name_seq(mm.group(3), "pi")
     b = function_body(cpp, r"FormatterToXML::accumNormalizedPIData\s*\([^)]*\)\s*\{", "accumNormalizedPIData")
-    need(r"for\s*\(\s*size_type\s+i\s*=\s*0\s*;\s*i\s*<\s*theLength\s*;\s*\+\+i\s*\)\s*\{\s*accumContent\s*\(\s*theData\s*\[\s*i\s*\]\s*\)\s*;\s*\}", b, "accumNormalizedPIData body")
+    chk_pi = one_of(b, [r"^\{\s*for\s*\(\s*size_type\s+i\s*=\s*0\s*;\s*i\s*<\s*theLength\s*;\s*\+\+i\s*\)\s*\{\s*accumContent\s*\(\s*theData\s*\[\s*i\s*\]\s*\)\s*;\s*\}\s*\}$",
+                        r"^\{\s*accumMarkupData\s*\(\s*theData\s*,\s*theLength\s*\)\s*;\s*\}$"], "accumNormalizedPIData body")
+    chk_sites = [chk_name, chk_name_direct, chk_comment, chk_pi, ref_only_fn]
+    if len(set(chk_sites)) != 1:
+        raise AnchorError("comment / PI / name sites are in different variants: %r" % (chk_sites,))
+    if chk_sites[0] == 1:
+        if cd_sites[0] != 1 or sur_sites[0] != 1:
+            raise AnchorError("12-K-new-8 shape without 10-K-new-7 / 11-K-new-4")
+        b = function_body(cpp, r"FormatterToXML::accumMarkupData\s*\([^)]*\)\s*\{", "accumMarkupData")
+        need(r"^\{\s*size_type\s+firstIndex\s*=\s*0\s*;\s*for\s*\(\s*size_type\s+i\s*=\s*0\s*;\s*i\s*<=\s*theLength\s*;\s*\+\+i\s*\)\s*\{\s*if\s*\(\s*i\s*==\s*theLength\s*\|\|\s*XalanUnicode::charLF\s*==\s*theData\s*\[\s*i\s*\]\s*\)"
+             r"\s*\{\s*accumMarkupRun\s*\(\s*theData\s*\+\s*firstIndex\s*,\s*i\s*-\s*firstIndex\s*\)\s*;\s*if\s*\(\s*i\s*<\s*theLength\s*\)\s*\{\s*accumContent\s*\(\s*theData\s*\[\s*i\s*\]\s*\)\s*;\s*\}\s*firstIndex\s*=\s*i\s*\+\s*1\s*;\s*\}"
+             r"\s*else\s+if\s*\(\s*isReferenceOnly\s*\(\s*theData\s*\[\s*i\s*\]\s*\)\s*==\s*true\s*\)\s*\{\s*throwInvalidCharacterException\s*\(\s*theData\s*\[\s*i\s*\]\s*,\s*getMemoryManager\s*\(\s*\)\s*\)\s*;\s*\}\s*\}\s*\}$", b, "accumMarkupData body")
+        b = function_body(cpp, r"FormatterToXML::accumMarkupRun\s*\([^)]*\)\s*\{", "accumMarkupRun")
+        need(r"^\{\s*for\s*\(\s*size_type\s+i\s*=\s*0\s*;\s*i\s*<\s*theLength\s*;\s*\+\+i\s*\)\s*\{\s*const\s+XalanDOMChar\s+ch\s*=\s*theData\s*\[\s*i\s*\]\s*;\s*if\s*\(\s*0xd800\s*<=\s*ch\s*&&\s*ch\s*<\s*0xe000\s*\)\s*\{"
+             r"\s*if\s*\(\s*ch\s*>=\s*0xdc00\s*\|\|\s*i\s*\+\s*1\s*>=\s*theLength\s*\)\s*\{\s*throwInvalidUTF16SurrogateException\s*\(\s*ch\s*,\s*getMemoryManager\s*\(\s*\)\s*\)\s*;\s*\}"
+             r"\s*else\s+if\s*\(\s*!\s*\(\s*0xdc00\s*<=\s*theData\s*\[\s*i\s*\+\s*1\s*\]\s*&&\s*theData\s*\[\s*i\s*\+\s*1\s*\]\s*<\s*0xe000\s*\)\s*\)\s*\{\s*throwInvalidUTF16SurrogateException\s*\(\s*ch\s*,\s*theData\s*\[\s*i\s*\+\s*1\s*\]\s*,\s*getMemoryManager\s*\(\s*\)\s*\)\s*;\s*\}"
+             r"\s*else\s+if\s*\(\s*ch\s*>\s*m_maxCharacter\s*\)\s*\{\s*throwUnrepresentableCharacterException\s*\([^;]*\)\s*;\s*\}\s*accumContent\s*\(\s*ch\s*\)\s*;\s*accumContent\s*\(\s*theData\s*\[\s*\+\+i\s*\]\s*\)\s*;\s*\}"
+             r"\s*else\s+if\s*\(\s*ch\s*>\s*m_maxCharacter\s*\)\s*\{\s*throwUnrepresentableCharacterException\s*\(\s*ch\s*\)\s*;\s*\}\s*else\s*\{\s*accumContent\s*\(\s*ch\s*\)\s*;\s*\}\s*\}\s*\}$", b, "accumMarkupRun body")
+        b = function_body(cpp, r"FormatterToXML::throwUnrepresentableCharacterException\s*\([^)]*\)\s*\{", "throwUnrepresentableCharacterException")
+        need(r"throw\s+XalanTranscodingServices::UnrepresentableCharacterException\s*\(\s*ch\s*,\s*m_encoding\s*,\s*theBuffer\s*\)\s*;", b, "throwUnrepresentableCharacterException body")
 
     o = HEADER
     o += "(* plugin translator/gen_serlegacy.py: the legacy XML serializer FormatterToXML (C04, part legacy) *)\n"
@@ -317,8 +353,10 @@ def gen_serlegacy():
     o += "\n(* variants (each flag: every site it covers has the same one of two recognised shapes) *)\n"
     o += "Definition legacy_cdata_cr_referenced : bool := %s.\n" % ("true" if cd_sites[0] == 1 else "false")
     o += "Definition legacy_detects_lone_low_surrogate : bool := %s.\n" % ("true" if sur_sites[0] == 1 else "false")
+    o += "Definition legacy_checks_comment_pi_names : bool := %s.\n" % ("true" if chk_sites[0] == 1 else "false")
     facts = {"attr_special": attr_special, "entities": len(entities), "max_values": maxvals,
-             "cdata_cr_referenced": cd_sites[0] == 1, "detects_lone_low_surrogate": sur_sites[0] == 1}
+             "cdata_cr_referenced": cd_sites[0] == 1, "detects_lone_low_surrogate": sur_sites[0] == 1,
+             "checks_comment_pi_names": chk_sites[0] == 1}
     return o, facts
 
 
